@@ -389,6 +389,10 @@ def gen_spec(seed, profile=None):
         run['cmethod'] = r.choice(['Complete', 'Finish', 'Arrive', 'Accept'])
         if P('p_again', 0.0) > 0:   # own stream: specs of profiles without p_again are unchanged
             run['again'] = random.Random(seed * 13 + 5).random() < P('p_again', 0.0)
+    if method == 'time' and P('p_split', 0.0) > 0:   # own stream: specs of profiles without p_split are unchanged
+        r4 = random.Random(seed * 17 + 3)
+        if r4.random() < P('p_split', 0.0):
+            run['splits'] = sorted(round(r4.uniform(0.05, 0.95) * T, 6) for _ in range(r4.randint(1, 3)))
     spec['run'] = run
     spec['tie'] = r.choice(P('tie_policies', ['native']))
     return spec
